@@ -108,6 +108,8 @@ def run(P, R, tier):
     K = KN.get(P)
     bind_rule(P, R, K)
     stage_rule(P, R)
+    from . import c12 as C12
+    C12.trialreset_rule(P, R, RULE="C02.trialreset")
     R.undecided += ["(c) the arithmetic inside each part (add_reaction, add_exchange, xexchange_save, totalize callees): dropped term, wrong coefficient, sign",
                     "(d) nothing becomes negative", "conservation itself (a numerical statement)"]
     # ------------------------------------------------------------------ C02.assemble
